@@ -38,6 +38,7 @@ def _case(draw):
     c["history"] = draw(st.sampled_from(["fresh", "sgd", "train_fwd", "train_fwd", "perturb"]))
     c["k"] = draw(st.integers(0, 3))
     c["via_buffer"] = draw(st.booleans())
+    c["warm_receiver"] = draw(st.booleans())
     c["seed"] = draw(st.integers(0, 10 ** 6))
     c["base"] = draw(st.sampled_from(["standard", "conditional", "diagonal", "mademog"]))
     c["mog"] = {"random_mask": draw(st.booleans()), "res": draw(st.booleans()), "K": draw(st.integers(1, 3)), "blocks": draw(st.integers(1, 2)),
@@ -194,6 +195,23 @@ def run_case(case):
                 return res
         # ---- fresh instance under another seed
         B, bB, _, _ = _build(case, case["seed"] + 424243, 7919)
+        if zoo.UMNN_LAYERS != [8, 8]:
+            bad = list(zoo.UMNN_LAYERS)
+            zoo.UMNN_LAYERS[:] = [8, 8]
+            res.fail("constructor_modified_its_argument", site, "the integrand_net_layers list handed to two constructions came back as %r: the same "
+                     "configuration no longer builds the same architecture" % (bad,))
+            res.nontrivial = True
+            return res
+        if case.get("warm_receiver"):
+            # the receiving model has been used before the checkpoint arrives (evaluation mode: caches of linear layers are filled)
+            try:
+                B.eval()
+                Xw, Cw = _inputs(case, bA, ctxw, 2, case["seed"] + 77)
+                with torch.no_grad():
+                    _calls(B, Xw, Cw, is_flow, bA)
+                res.labels.append("warm_receiver")
+            except Exception:
+                pass
         X, C = _inputs(case, bA, ctxw, n, case["seed"] + 99)
         A.eval()
         B.eval()
